@@ -569,6 +569,7 @@ class Sym:
                     assigned.add(n.name)
         outer_assigned = {a for a in assigned if env.has(a) and a not in target_names}
         accs = {}
+        prior = {}   # mappings that already hold entries when the loop starts
         nested = {}  # accumulators of an enclosing loop that this loop appends to
         for name in mutated:
             cur = env.get(name)
@@ -579,6 +580,10 @@ class Sym:
             elif cur[0] == 'acc' and cur[1] == 'list':
                 accs[name] = ('list', ())
                 nested[name] = cur
+            elif cur[0] == 'mapdict' or (cur[0] == 'call' and cur[1] == 'merge'):
+                # a mapping built before (by an earlier loop / comprehension) receives more entries: union, later wins
+                accs[name] = ('dict', ())
+                prior[name] = cur
         uid = next(_uid)
         vars_ = self._bind_loop_vars(st.target, env, uid)
         body_env = _Env(env)
@@ -600,6 +605,8 @@ class Sym:
             if len(ems) == 0:
                 if name in nested:
                     env.setdeep(name, nested[name])
+                if name in prior:
+                    env.setdeep(name, prior[name])
                 continue
             if len(ems) != 1:
                 env.setdeep(name, opaque(f'<loop-built {name}: {len(ems)} emissions>'))
@@ -612,6 +619,8 @@ class Sym:
                 built = ('call', 'flatten', (('map', varnames, what[1], seq, g),))
             else:
                 built = ('mapdict', varnames, what[1], what[2], seq, g)
+            if name in prior:
+                built = ('call', 'merge', (prior[name], built))
             if name in nested:
                 # inner loop appending to the accumulator of the enclosing loop: one `extend` emission of the outer iteration
                 env.setdeep(name, nested[name])
@@ -1022,7 +1031,19 @@ class Sym:
 
     def _ev_Dict(self, node, env, fr):
         if any(k is None for k in node.keys):
-            return opaque(node)
+            # {**a, 'k': v, **b}: union of mappings, later entries win
+            parts, cur = [], []
+            for k, v in zip(node.keys, node.values):
+                if k is None:
+                    if cur:
+                        parts.append(('dict', tuple(cur)))
+                        cur = []
+                    parts.append(self.ev(v, env, fr))
+                else:
+                    cur.append((self.ev(k, env, fr), self.ev(v, env, fr)))
+            if cur:
+                parts.append(('dict', tuple(cur)))
+            return parts[0] if len(parts) == 1 else ('call', 'merge', tuple(parts))
         return ('dict', tuple((self.ev(k, env, fr), self.ev(v, env, fr)) for k, v in zip(node.keys, node.values)))
 
     def _ev_Starred(self, node, env, fr):
@@ -1271,6 +1292,8 @@ class Sym:
         if name == 'len' and len(args) == 1:
             return ('call', 'len', (args[0],))
         if name in ('deepcopy', 'copy.deepcopy', 'copy.copy', 'copy'):
+            if getattr(self, 'keep_copies', False) and args:
+                return ('call', 'copy.deepcopy' if 'deep' in name else 'copy.copy', (args[0],))   # object identity matters to the caller
             return args[0] if args else opaque(node)
         if base == 'Path' and name in ('Path', 'pathlib.Path') and len(args) == 1:
             return ('call', 'Path', (args[0],))
